@@ -322,6 +322,7 @@ structure Facts (R : Nat) (syms : List Nat) (bg : List Rat) (m : List (List (Opt
   min_mass : ∀ j : Nat, (j : Int) < d.minScore → prob syms bg m.length (dEq d.data j) = 0
   max_nonneg : 0 ≤ d.maxScore
   max_lt : d.maxScore < d.sf.size
+  max_tail : MaxInv (fun j => prob syms bg m.length (dGe d.data (j : Int))) d.sf.size 0 d.maxScore
 
 theorem build_facts {R : Nat} {syms : List Nat} {bg : List Rat} {m : List (List (Option Rat))}
     {d : Dist Rat} (hyp : Hyp R syms bg m) (h : build R syms bg m = some d) (hs : 0 < d.scale) :
@@ -416,7 +417,8 @@ theorem build_facts {R : Nat} {syms : List Nat} {bg : List Rat} {m : List (List 
       rw [hj, this]
       exact min1_of_le_one hplast
     · rw [if_neg hj]; exact hpdf j
-  have hspec := sfLoop_spec p G (m.length * R + 1) hp hG hG1 (m.length * R)
+  have hG0 : ∀ j, 0 ≤ G j := fun j => prob_nonneg hyp.bg_nonneg _ _
+  have hspec := sfLoop_spec p G (m.length * R + 1) hp hG hG1 hG0 (m.length * R)
     ⟨clipLast (pdfOf R syms bg d.data), 0, 0⟩
     (by show (clipLast _).size = _; unfold clipLast; rw [size_vset, hpsz])
     (le_refl _)
@@ -441,18 +443,19 @@ theorem build_facts {R : Nat} {syms : List Nat} {bg : List Rat} {m : List (List 
         simp [hfl0] at hs
       show (0 : Int) + 1 < ((m.length * R + 1 : Nat) : Int)
       omega, fun j _ hj => by simp at hj; omega⟩
-    ⟨le_refl _, by show (0 : Int) < ((m.length * R + 1 : Nat) : Int); omega⟩
+    ⟨le_refl _, by show (0 : Int) < ((m.length * R + 1 : Nat) : Int); omega,
+      Or.inl ⟨rfl, fun k hk hks => by omega⟩⟩
   have hsz1 : (pdfOf R syms bg d.data).size - 1 = m.length * R := by rw [hpsz]; omega
   rw [hsz1] at hsf hms hmx
-  obtain ⟨hssz, hsval, ⟨hm0, hm1, hm2⟩, hx0, hx1⟩ := hspec
+  obtain ⟨hssz, hsval, ⟨hm0, hm1, hm2⟩, hx0, hx1, hx2⟩ := hspec
   rw [← hsf] at hssz hsval
   rw [← hms] at hm0 hm1 hm2
-  rw [← hmx] at hx0 hx1
+  rw [← hmx] at hx0 hx1 hx2
   exact {
     rows := hrows, rows_pos := hpos, R_i32 := hRi, data := hdata', cells := hcells, wordBound := hwb,
     size := hssz, pdf := hpdf,
     sf := fun j hj => hsval j (by rw [hssz] at hj; exact hj),
     min_nonneg := hm0, min_lt := by rw [hssz]; exact hm1, min_mass := hm2,
-    max_nonneg := hx0, max_lt := by rw [hssz]; exact hx1 }
+    max_nonneg := hx0, max_lt := by rw [hssz]; exact hx1, max_tail := by rw [hssz]; exact hx2 }
 
 end LMV.Dist
